@@ -88,6 +88,18 @@ func yamlFor(mask uint64, scheme, svc string, pem, key string, ports [3]int) str
 				w("  serviceNameList:\n    - nchf-convergedcharging\n    - nchf-spendinglimitcontrol\n")
 			case "unknown":
 				w("  serviceNameList:\n    - nchf-convergedcharging\n    - nchf-foo\n")
+			case "unknown-sub":
+				w("  serviceNameList:\n    - nchf-convergedcharging\n    - nchf-offlineonly\n")
+			case "unknown-pre":
+				w("  serviceNameList:\n    - nchf-converged\n")
+			case "unknown-mid":
+				w("  serviceNameList:\n    - nchf-convergedcharging\n    - charging\n")
+			case "unknown-blank":
+				w("  serviceNameList:\n    - nchf-convergedcharging\n    - \"\"\n")
+			case "unknown-case":
+				w("  serviceNameList:\n    - NCHF-ConvergedCharging\n")
+			case "unknown-comma":
+				w("  serviceNameList:\n    - \"nchf-convergedcharging,nchf-spendinglimitcontrol\"\n")
 			case "empty":
 				w("  serviceNameList: []\n")
 			}
@@ -143,11 +155,11 @@ func genConfig(o genOpts, w *bufio.Writer) {
 			}
 		}
 	}
-	for _, sc := range []string{"ftp", "none", "HTTP"} {
+	for _, sc := range []string{"ftp", "none", "HTTP", "HTTPS", "Https"} {
 		emit(0, sc, "ok")
 		emit(1<<ciSbiTls, sc, "ok")
 	}
-	for _, sv := range []string{"unknown", "empty"} {
+	for _, sv := range []string{"unknown", "empty", "unknown-sub", "unknown-pre", "unknown-mid", "unknown-blank", "unknown-case", "unknown-comma"} {
 		emit(0, "http", sv)
 		emit(0, "https", sv)
 	}
